@@ -452,7 +452,7 @@ def kernel_tables(tx, ax):
         if k == 3:
             if not x[1]:
                 raise Stop()
-            if not x[2] and (not bg or bg == "default") and fg and fg != "ansidefault":
+            if not x[2] and (not bg or bg == "default") and fg and fg not in ("ansidefault", "default"):
                 if fg in ansi_rgb or is6(fg):
                     cols.add(fg)
                     return kernel_adj(fg, lo, hi), bg
